@@ -7,6 +7,7 @@ C14.T  tightness by abstract interpretation: with log p − log q ≡ c (the log
 from __future__ import annotations
 
 import ast
+from fractions import Fraction
 from typing import Dict, List, Optional
 
 from sa.cfg import CFG, own_nodes
@@ -93,6 +94,7 @@ class Interp:
         self.flags = flags
         self.env: Dict[str, object] = {}
         self.ret: Optional[object] = None
+        self.unshifted_exp: list = []   # exp(...) whose argument still contains the log marginal likelihood c
 
     def scalar_atom(self, e):
         a = self_attr(e)
@@ -229,6 +231,9 @@ class Interp:
                 out = self.reduce(recv, ax, how, e)
                 return out
             if nm == 'exp':
+                arg_c = recv.c if isinstance(recv, Val) else recv
+                if isinstance(arg_c, Rat) and not arg_c.diff('c').is_zero():
+                    self.unshifted_exp.append((e, repr(arg_c)))
                 if isinstance(recv, Val):
                     if not recv.uniform():
                         raise Unsupported(e, 'exp of a value that varies with the draw')
@@ -330,7 +335,16 @@ def check_tightness(ctx, rep):
             key = f"{cls.name}._call::sample-shape=[{','.join(dims)}]"
             try:
                 ir = cls.resolve('__init__')
-                val = Interp(fn, dims, {'score': False, 'entropy': False}, ir[1] if ir else None).run()
+                it = Interp(fn, dims, {'score': False, 'entropy': False}, ir[1] if ir else None)
+                val = it.run()
+                # exp is only applied to log-weights from which the common level was removed (− logsumexp / − max): exp(c + …) under- or overflows for a large |log Z|
+                for node, shown_arg in it.unshifted_exp:
+                    rep.bad('C14.T', f"{key}::exp-of-unshifted-log-weights::{norm_text(node)[:40]}", where(cls.module, node), {'argument_at_true_posterior': shown_arg},
+                            f"{cls.name}: `{norm_text(node)[:60]}` exponentiates a log-weight that still contains the log marginal likelihood (argument = {shown_arg}): for "
+                            f"|log Z| beyond ~745 (float64; ~88 in float32) the weights under- or overflow and the objective is NaN or ±inf instead of log Z — the normalisation must "
+                            f"happen in log space (subtract logsumexp or the maximum first)")
+                if not it.unshifted_exp:
+                    rep.ok('C14.T', f"{key}::exp-only-of-shifted-log-weights", where(cls.module, fn))
             except Unsupported as u:
                 # a value that still varies with the draw is a violation of "for every draw"
                 if 'varies with the draw' in str(u):
@@ -498,6 +512,128 @@ def check_joint(ctx, rep):
                   f"JointDistributionModel.entropy adds component entropies element-wise ({adds[:1]}): blocks of different batch shape broadcast, and the objective's "
                   f"own `.sum()` then counts the smaller block once per element of the larger one")
 
+    # the container registers every component under a name no other component (parameter *or* model) holds: Parametric.__setattr__ evicts an entry of the other registry
+    # stored under the same name, so a model and a transformed parameter that share an id (e.g. None) must not be given the same attribute name
+    cont = ctx.classes.get('torchtree.core.container.Container')
+    uid = cont.resolve('_unique_id') if cont is not None else None
+    if not uid:
+        rep.undecided('C14.C', 'Container._unique_id::name-unused-by-any-component', '', 'Container._unique_id not found')
+    else:
+        f = uid[1]
+        loops = [n for n in ast.walk(f) if isinstance(n, ast.While)]
+        tests = [norm_text(n.test) for n in loops]
+        verdict = None
+        if len(loops) == 1:
+            t = loops[0].test
+            has_attr = any(isinstance(c, ast.Call) and isinstance(c.func, ast.Name) and c.func.id == 'hasattr' and c.args and isinstance(c.args[0], ast.Name) and c.args[0].id == 'self'
+                           for c in ast.walk(t))
+            names = {self_attr(x) for x in ast.walk(t) if self_attr(x)}
+            # follow one local name (`registered = self._parameters if … else self._models`)
+            for x in ast.walk(t):
+                if isinstance(x, ast.Name):
+                    for st in ast.walk(f):
+                        if isinstance(st, ast.Assign) and any(isinstance(tt, ast.Name) and tt.id == x.id for tt in st.targets):
+                            names |= {self_attr(y) for y in ast.walk(st.value) if self_attr(y)}
+            both_on_every_path = {'_parameters', '_models'} <= {self_attr(x) for x in ast.walk(t) if self_attr(x)}
+            if has_attr or both_on_every_path:
+                verdict = True
+            elif names & {'_parameters', '_models'}:
+                verdict = False
+        if verdict is None:
+            rep.undecided('C14.C', 'Container._unique_id::name-unused-by-any-component', where(cont.module, f), f"uniqueness test not recognised: {tests}")
+        else:
+            rep.check('C14.C', 'Container._unique_id::name-unused-by-any-component', verdict, where(cont.module, f), {'test': tests},
+                      f"Container._unique_id accepts a name when `{tests[0] if tests else '?'}` is false, which looks at one registry only: a model and a transformed parameter with "
+                      f"the same id get the same attribute name, Parametric.__setattr__ then evicts the earlier one, and a likelihood or Jacobian term silently drops out of the joint")
+
+
+def check_mvn_entropy(ctx, rep):
+    """C14.C — the entropy of the multivariate normal variational family (ELBO(entropy=True) adds it instead of −E log q).  Either it is delegated to the torch distribution
+    built exactly as log_prob / rsample build it (same keyword dictionary), or it is a closed form: then, for each of the three parameterisations, the returned expression must be
+    d/2·(1 + log 2π) + ½ log det Σ, i.e. + Σ log diag(L) for scale_tril, + ½ slogdet for the covariance and − ½ slogdet for the precision matrix."""
+    cls = ctx.classes.find('torchtree.distributions.multivariate_normal.MultivariateNormal')
+    if cls is None:
+        rep.undecided('C14.C', 'MultivariateNormal.entropy', '', 'class not found')
+        return
+    m = cls.module
+    ent, lp = cls.resolve('entropy')[1], cls.resolve('log_prob')[1]
+
+    def torch_ctor(fn):
+        for c in ast.walk(fn):
+            if isinstance(c, ast.Call) and (dotted_name(c.func) or '').endswith('distributions.MultivariateNormal'):
+                return c
+        return None
+
+    def kwargs_def(fn):
+        return [norm_text(st.value) for st in ast.walk(fn) if isinstance(st, ast.Assign) and isinstance(st.targets[0], ast.Name) and st.targets[0].id == 'kwargs']
+    ce, cl = torch_ctor(ent), torch_ctor(lp)
+    key = 'MultivariateNormal.entropy::entropy-of-the-distribution-log_prob-evaluates'
+    if ce is not None:
+        rets = [r for r in ast.walk(ent) if isinstance(r, ast.Return) and r.value is not None]
+        delegated = len(rets) == 1 and isinstance(rets[0].value, ast.Call) and isinstance(rets[0].value.func, ast.Attribute) and rets[0].value.func.attr == 'entropy' and rets[0].value.func.value is ce
+        same = cl is not None and norm_text(ce) == norm_text(cl) and kwargs_def(ent) == kwargs_def(lp)
+        rep.check('C14.C', key, delegated and same, where(m, ent), {'entropy_builds': norm_text(ce)[:80], 'log_prob_builds': norm_text(cl)[:80] if cl is not None else None},
+                  "MultivariateNormal.entropy must return the entropy of the very torch distribution log_prob evaluates (same location, same parameterisation keyword)")
+        return
+    # closed form
+    HALF = Rat.const(Fraction(1, 2))
+    for par, want_extra in (('scale_tril', Rat.sym('LD')), ('covariance_matrix', HALF * Rat.sym('SD')), ('precision_matrix', -HALF * Rat.sym('SD'))):
+        k2 = f"{key}::{par}"
+        env: Dict[str, Rat] = {}
+
+        def atom(e):
+            t = norm_text(e).replace(' ', '')
+            if isinstance(e, ast.Name) and e.id in env:
+                return env[e.id]
+            if t in ('math.log(2.0*math.pi)', 'math.log(2*math.pi)', 'math.log(math.pi*2.0)', 'math.log(2.0*math.pi)'.replace('2.0', '2')):
+                return Rat.sym('L2PI')
+            if t == 'math.pi':
+                return None
+            if 'slogdet' in t and t.endswith('[1]') and 'self.parameter.tensor' in t:
+                return Rat.sym('SD')
+            if t.startswith('torch.logdet(') and 'self.parameter.tensor' in t:
+                return Rat.sym('SD')
+            if 'diagonal(' in t and '.log()' in t and t.endswith('.sum(-1)') and 'self.parameter.tensor' in t:
+                return Rat.sym('LD')
+            if t in ('self.loc.shape[-1]', 'self.loc.tensor.shape[-1]', 'self.event_shape'):
+                return Rat.sym('d')
+            return None
+
+        def test(tn):
+            if isinstance(tn, ast.Compare) and len(tn.ops) == 1 and isinstance(tn.ops[0], (ast.Eq, ast.NotEq, ast.In, ast.NotIn)) and self_attr(tn.left) == 'parameterization':
+                c = tn.comparators[0]
+                vals = [c.value] if isinstance(c, ast.Constant) else [x.value for x in c.elts if isinstance(x, ast.Constant)] if isinstance(c, (ast.Tuple, ast.List, ast.Set)) else None
+                if vals is None:
+                    raise Unsupported(tn, 'test')
+                hit = par in vals
+                return hit if isinstance(tn.ops[0], (ast.Eq, ast.In)) else not hit
+            raise Unsupported(tn, f"test {norm_text(tn)[:40]}")
+
+        def block(stmts):
+            for st in stmts:
+                if isinstance(st, ast.Expr) and isinstance(st.value, ast.Constant):
+                    continue
+                if isinstance(st, ast.Assign) and len(st.targets) == 1 and isinstance(st.targets[0], ast.Name):
+                    env[st.targets[0].id] = ToRat(atom)(st.value)
+                elif isinstance(st, ast.If):
+                    r = block(st.body if test(st.test) else st.orelse)
+                    if r is not None:
+                        return r
+                elif isinstance(st, ast.Return):
+                    return ToRat(atom)(st.value)
+                else:
+                    raise Unsupported(st, f"statement {norm_text(st)[:40]}")
+            return None
+        try:
+            got = block(ent.body)
+        except Unsupported as u:
+            rep.undecided('C14.C', k2, where(m, ent), f"closed-form entropy outside the vocabulary: {u}")
+            continue
+        want = HALF * Rat.sym('d') * (Rat.const(1) + Rat.sym('L2PI')) + want_extra
+        rep.check('C14.C', k2, got is not None and got.equals(want), where(m, ent), {'returned': repr(got), 'expected': repr(want)},
+                  f"MultivariateNormal.entropy with the {par} parameterisation returns {got!r}; the entropy is d/2·(1 + log 2π) + ½ log det Σ = {want!r} "
+                  f"(LD = Σ log diag L, SD = log det of the stored matrix; the precision matrix is the inverse covariance, its log-determinant enters with a minus sign)")
+
 
 def run(ctx, rep):
     from sa import callbind
@@ -525,6 +661,10 @@ def run(ctx, rep):
         check_joint(ctx, rep)
     except Unsupported as u:
         rep.undecided('C14.C', 'check_joint', '', str(u))
+    try:
+        check_mvn_entropy(ctx, rep)
+    except Unsupported as u:
+        rep.undecided('C14.C', 'check_mvn_entropy', '', str(u))
     # options of the objectives reach the constructor parameter of their own name
     from props import c09
     c09.check_positional_options(ctx, rep, rule='C14.O', only=lambda ci: ci.module.name.startswith('torchtree.variational'))
